@@ -255,9 +255,10 @@ class Exec:
     rand: name of the function whose calls return fresh symbolic words (random source)
     """
 
-    def __init__(self, mod, fname, args, regions, cut=False, rand_fns=(), max_steps=2000000, callbacks=None):
+    def __init__(self, mod, fname, args, regions, cut=False, rand_fns=(), max_steps=2000000, callbacks=None, cut_exits=True):
         self.mod, self.f = mod, mod.funcs[fname]
         self.cut = cut
+        self.cut_exits = cut_exits
         self.rand_fns = set(rand_fns)
         self.callbacks = callbacks or {}
         self.segments = []
@@ -298,7 +299,7 @@ class Exec:
                     body = set(x for x in self.f.order if order[s] <= order[x] <= order[l])
                     for x in body:
                         for t in self.succs(x):
-                            if t not in body:
+                            if t not in body and self.cut_exits:
                                 hs.add(t)
         return hs
 
